@@ -2,8 +2,12 @@
 package c08
 
 import (
+	"os"
+	"path/filepath"
+
 	"encoding/json"
 	"fmt"
+	"github.com/sdcio/yang-parser/compile"
 	"strconv"
 	"strings"
 
@@ -69,7 +73,62 @@ func check(text, stmt, want string) []engine.Violation {
 	if *got != want {
 		return mk("wrong-value:"+diffClass(want, *got), fmt.Sprintf("expected %q got %q", want, *got))
 	}
+	// the module read from a file through the compiler's own parse entry point (compile.ParseModules,
+	// which ParseYang, ParseModuleDir and CompileDir* go through) carries the same argument: all texts
+	// with a line break inside a quoted piece that is preceded by a blank, a tab or a CR, and a
+	// deterministic subset (by hash) of the others
+	if fileEntryToo(text) {
+		if via, perr := argViaFile(text, stmt); perr != "" || via != want {
+			return mk("file-entry-point-differs:"+diffClass(want, via), fmt.Sprintf("compile.ParseModules on a file with this text: error %q, argument %q; expected %q", perr, via, want))
+		}
+	}
 	return nil
+}
+
+var fileMask = 255
+
+func fileEntryToo(text string) bool {
+	if strings.Contains(text, " \n") || strings.Contains(text, "\t\n") || strings.Contains(text, "\r\n") {
+		h := 0
+		for _, c := range text {
+			h = h*31 + int(c)
+		}
+		return h&(fileMask>>4) == 0
+	}
+	h := 0
+	for _, c := range text {
+		h = h*31 + int(c)
+	}
+	return h&fileMask == 0
+}
+
+func argViaFile(text, stmt string) (arg, errText string) {
+	defer func() {
+		if p := recover(); p != nil {
+			errText = fmt.Sprint("panic: ", p)
+		}
+	}()
+	d, err := os.MkdirTemp("", "verif-c08-")
+	if err != nil {
+		return "", err.Error()
+	}
+	defer os.RemoveAll(d)
+	f := filepath.Join(d, "in.yang")
+	if err := os.WriteFile(f, []byte(text), 0o644); err != nil {
+		return "", err.Error()
+	}
+	trees, err := compile.ParseModules(nil, f)
+	if err != nil {
+		return "", err.Error()
+	}
+	for _, t := range trees {
+		for _, ch := range t.Root.Children() {
+			if ch.Statement() == stmt {
+				arg = ch.Argument().String()
+			}
+		}
+	}
+	return arg, ""
 }
 
 func stmtClass(s string) string { return s }
@@ -131,6 +190,9 @@ var trailing = []string{"", " ", "\t", " \t"}
 var words = []string{"a", "b c", "x\\\\n", "q\\\"r", "p\\\\", "//c", "/*c*/", "+", ";", "{", "é", "'", "p\\nq", "p\\tq", "}"}
 
 func run(c *engine.Ctx) {
+	if !c.Quick() {
+		fileMask = 31 // (thorough: eight times as many texts also go through the file entry point)
+	}
 	r := &runner{c: c}
 	// ---- multi-line double-quoted strings
 	for _, si := range stmtIndents {
@@ -245,7 +307,9 @@ func run(c *engine.Ctx) {
 			pieces = append(pieces, piece{"'" + w + "'", w}) // single quotes: verbatim
 		}
 	}
-	pieces = append(pieces, piece{"\"\"", ""}, piece{"''", ""}, piece{"'a\nb'", "a\nb"}, piece{"'  x\\n'", "  x\\n"})
+	pieces = append(pieces, piece{"\"\"", ""}, piece{"''", ""}, piece{"'a\nb'", "a\nb"}, piece{"'  x\\n'", "  x\\n"},
+		// single quotes keep everything: blanks and tabs in front of a line break, CR LF, an empty line
+		piece{"'u:  \n  -v\t\n   \n  -q'", "u:  \n  -v\t\n   \n  -q"}, piece{"'a \r\n b'", "a \r\n b"})
 	seps := []string{"+", " + ", "\n+\n", " /*c*/ + // c\n ", "\t+\r\n\t", " +\n      ", " /*/ c */ + ", " + /**/ /***/ ", " //*/\n + /* // */ "}
 	for _, kw := range keywords {
 		for i, p1 := range pieces {
